@@ -413,7 +413,16 @@ operations `newSpace` (with bases), `setRef` (`new_ref` / `change_ref` behind `_
 `setRefGuarded`, `newRefSub`), `delRef`, `addBase`, `removeBase` (re-derivation by `reinherit`, refused
 as a whole when it would raise).  `dirty` is ghost state: a space is marked when the linearisation of one
 of its ENCLOSING spaces changed and it was not derived again since (`addBase` / `removeBase` derive the
-space and the spaces that inherit from it again, not their child spaces). -/
+space and the spaces that inherit from it again, not their child spaces).
+
+LIMIT OF THE MODEL (R8C10): a target is a PATH (`Target.obj p`); what exists is asked of the current state
+(`RState.exist`).  modelx has object identity: a cells that is deleted stays deleted, the references that
+held it (the definer's and, copied by `on_inherit`, every deriver's) keep the dead object even when another
+cells appears under the same path later (the space derives the name from a base, the name is created again,
+a base is added again).  For the machine such a target is alive again.  The theorems of this section are
+statements about the machine; they describe the code for references whose target object was not deleted
+since it was assigned.  The `relhist` correspondence leaves out every derived reference that holds a deleted
+object (harness/mxh/relhist.py, OBJECT IDENTITY; witnesses corpus/C10/family-deleted-target-*.json). -/
 
 section histories
 open MxModel.RelHist
@@ -424,7 +433,8 @@ bound to what `reinherit` computes from the current linearisations (to a null ob
 counterpart did not exist at the time of the last derivation - children are not inherited); a value
 that is no object is copied.  For every space that is not `dirty`, i.e. no enclosing space had its
 linearisation changed since the space was last derived (the hypothesis is needed:
-`enclosing_base_change_full_fails`, known finding C10-enclosing-base-change). -/
+`enclosing_base_change_full_fails`, known finding C10-enclosing-base-change).  Objects are paths here: see
+LIMIT OF THE MODEL above for what that leaves out (targets deleted since they were assigned). -/
 theorem derived_refs_always_rebound (ops : List ROp) (q : Path) (n : String) (r : DRef)
     (hr : (RState.run {} ops).ref q n = some ⟨false, r⟩) (hd : (RState.run {} ops).dirty q = false) :
     Expected (RState.run {} ops) q n r :=
